@@ -145,7 +145,7 @@ class NpShim:
     # ---- constructors ----------------------------------------------------
     @staticmethod
     def array(obj, dtype=None, *a, **k):
-        if dtype is None and _has_sym(obj):
+        if (dtype is None or dtype is float) and _has_sym(obj):
             if isinstance(obj, _np.ndarray):
                 return obj.copy()
             if _is_sym(obj):
